@@ -238,6 +238,54 @@ func c04Run(t lib.Fataler, c *c04Case, enum bool, extra ...string) {
 	}
 }
 
+// checkC04Named runs `select e as c1, c1 as c2, str(c1 + 0 * 1) ..` - the
+// named field, a field that is only its name, and a field that uses the name
+// - and demands the value the reference gives e on every pair.
+func checkC04Named(e *lib.Node) string {
+	st := &lib.Stmt{Kind: "select", Fields: []lib.SelField{
+		{E: e.Clone(), Alias: "c1"},
+		{E: lib.Ref("c1", e.T), Alias: "c2"},
+		{E: lib.Bin("+", lib.Ref("c1", e.T), lib.Int(0)), Alias: "c3"},
+	}, Where: lib.Bin("!=", lib.Key(), lib.Str("zz"))}
+	q := st.Render()
+	var epairs []lib.Pair
+	var want []any
+	for _, p := range c04Pairs {
+		v, err := lib.Eval(e, &lib.Env{K: p.K, V: p.V})
+		if err != nil {
+			continue
+		}
+		epairs = append(epairs, p)
+		want = append(want, v)
+	}
+	if len(epairs) == 0 {
+		return ""
+	}
+	for _, cfg := range []lib.Cfg{{Mode: "row", Batch: 32, Cache: true}, {Mode: "batch", Batch: 3, Cache: true}, {Mode: "row", Batch: 32, Cache: false}} {
+		res := lib.Run(q, lib.NewStore(epairs), len(epairs), cfg)
+		if res.BuildErr != nil {
+			return ""
+		}
+		if res.Failed() {
+			return fmt.Sprintf("query %q [%s]: %s (the reference evaluates the field on every pair)", q, cfg, res.Describe())
+		}
+		if len(res.Rows) != len(epairs) {
+			return fmt.Sprintf("query %q [%s]: %d rows for %d pairs", q, cfg, len(res.Rows), len(epairs))
+		}
+		for i, r := range res.Rows {
+			w3, err := lib.Eval(lib.Bin("+", e, lib.Int(0)), &lib.Env{K: epairs[i].K, V: epairs[i].V})
+			if err != nil {
+				continue
+			}
+			if !lib.EqualVal(want[i], r[0]) || !lib.EqualVal(want[i], r[1]) || !lib.EqualVal(w3, r[2]) {
+				return fmt.Sprintf("query %q [%s] on (%q,%q): the field is %s as written; the engine shows c1 = %s, c2 (its name) = %s, c3 (its name + 0) = %s", q, cfg, epairs[i].K, epairs[i].V, lib.Show(want[i]), lib.Show(r[0]), lib.Show(r[1]), lib.Show(r[2]))
+			}
+		}
+	}
+	lib.Stats.Label("named-field-and-uses")
+	return ""
+}
+
 // c04BoundaryLiteral: the value of e on one of the pairs (chosen by n) as a
 // literal, when it is a non-negative number that can be written down.
 func c04BoundaryLiteral(e *lib.Node, n int) *lib.Node {
@@ -285,6 +333,14 @@ func TestC04Arith(t *testing.T) {
 		} else {
 			w := lib.Bin(">", lib.Call("float", lib.Value()), e)
 			c04Run(t, &c04Case{E: lib.Key(), W: w, Pairs: c04Pairs}, true, tag, "in-where")
+		}
+		// under a name: the field and every use of its name show the same value
+		// (the rewrite folds the field; a use of the name may still look at
+		// the expression as it was written)
+		if idx%4 == 0 {
+			if m := checkC04Named(e); m != "" {
+				fail(t, "C04", "c04", m, &c04Case{E: e, W: c04True(), Pairs: c04Pairs})
+			}
 		}
 		// on the boundary: `e = v` and `e >= v` with v the value that e has on
 		// one of the pairs - a rewrite that moves e by one unit in the last
